@@ -20,7 +20,7 @@ ASSUMPTIONS = [
 ]
 
 GOOD = ['{a}', '[c]', '{}', '[]', '{{x}}', '[a[0]]']
-BAD = ['{x', 'x]', '[x}', '{x]', 'x', '']
+BAD = ['{x', 'x]', '[x}', '{x]', 'x', '', '{x}\n', '[y]\n', ' {x}']
 IDX = [0, 1, -1, -2, 'len', 'len+3', '-len-1', '-len-3']
 INITS = [(), ('G1',), ('G1', 'K'), ('G1', 'G2'), ('G1', 'G2', 'K')]
 
@@ -43,6 +43,7 @@ def op_templates(reduced=False):
         ops.append(('pop', i))
     ops.append(('reverse',))
     ops.append(('clear',))
+    ops.append(('clone-pop',))      # a list built from this one is independent of it
     for i in ([0, -1, 'len'] if reduced else [0, 1, -1, -2, 'len', '-len-1']):
         ops.append(('get', i))
     for sl in ([(None, None, None), (None, None, -1), (1, None, None)] if reduced else
@@ -192,6 +193,8 @@ def run_sequence(init, ops, flags=None):
                 exp_ret = ('is', newm.pop() if i is None else newm.pop(i))
             except IndexError:
                 exp_exc = IndexError
+        elif name == 'clone-pop':
+            pass
         elif name == 'reverse':
             newm.reverse()
         elif name == 'clear':
@@ -223,6 +226,13 @@ def run_sequence(init, ops, flags=None):
             elif name == 'pop':
                 i = resolve(op[1], n)
                 ret = args.pop() if i is None else args.pop(i)
+            elif name == 'clone-pop':
+                clone = TexArgs(args)
+                other = TexCmd('other', args=args)
+                if len(clone):
+                    clone.pop()
+                if len(other.args):
+                    other.args.remove(other.args[0])
             elif name == 'reverse':
                 ret = args.reverse()
             elif name == 'clear':
